@@ -118,6 +118,10 @@ def _weave_states_in_region(
 
     for region in regions:
         for block in region.blocks:
+            # nothing is known about how control reaches a later block of a region (cf.br / cf.cond_br):
+            # it does not continue with the state the textually preceding block ended with
+            if block is not region.blocks[0]:
+                state.clear()
             for op in block.ops:
                 # handle accfg.setup ops:
                 if isinstance(op, accfg.SetupOp):
